@@ -329,7 +329,12 @@ func runLifecycle(c *LCase) (st lStats, err error) {
 								}
 							}
 						case 1:
-							db.Has(k, nil)
+							if has, err := db.Has(k, nil); err == nil {
+								if _, ok := e.M.Get(k); ok != has {
+									errc <- fmt.Errorf("%s: Has(%q) racing with Close returned %v, model says %v", what, k, has, ok)
+									return
+								}
+							}
 						case 2:
 							s, err := db.GetSnapshot()
 							if err != nil && err != leveldb.ErrClosed {
@@ -349,10 +354,20 @@ func runLifecycle(c *LCase) (st lStats, err error) {
 				}(g)
 			}
 			time.Sleep(time.Duration(200+si*50) * time.Microsecond)
+			// stretch Close: closing the journal and manifest files takes a moment, so the readers
+			// meet every intermediate state of the shutdown
+			oldHook := e.FS.Hook
+			e.FS.Hook = func(kind string, fd storage.FileDesc) {
+				if kind == vfs.OpClose && fd.Type != storage.TypeTable {
+					time.Sleep(250 * time.Microsecond)
+				}
+			}
 			var cerr error
 			if err := within(20*time.Second, what+": Close", func() { cerr = e.Close() }); err != nil {
+				e.FS.Hook = oldHook
 				return st, err
 			}
+			e.FS.Hook = oldHook
 			close(stop)
 			if err := within(20*time.Second, what+": calls racing with Close", wg.Wait); err != nil {
 				return st, err
